@@ -74,8 +74,10 @@ where
     let o_unsub = observer.clone();
 
     if !self.subscriber.is_subscribed() {
-      // the stream has already ended: an upstream created now must never go live
+      // the stream has already ended: an upstream created now must never go
+      // live, and whatever was set up for it (on_finalize) is released
       observer.unsubscribe();
+      self.finalize();
       return observer;
     }
 
